@@ -260,6 +260,10 @@ pub struct Fp {
     /// prune, before the second one (or, with one prune, before the parked backup resumes): the second prune then has two
     /// small index files to merge and REWRITES the index file that lists the still-marked packs (`filter_index_files`)
     pub mid_backup: bool,
+    /// with `forget_all`, two prunes and ≥ 2 snapshots: only the newest snapshot is forgotten before the first prune, the others
+    /// BETWEEN the two prunes — the second prune then marks further packs and (must-modify) rewrites index files, among them the
+    /// one listing the packs the first prune marked, which stay marked (no effect otherwise)
+    pub staged_forget: bool,
 }
 
 impl Fp {
@@ -267,11 +271,11 @@ impl Fp {
         (self.n_snaps - 1)
             + 3 * (u64::from(self.forget_all)
                 + 2 * (self.a_new
-                    + 3 * ((self.prunes - 1) + 2 * (u64::from(self.old_packs) + 2 * (u64::from(self.no_resize) + 2 * (u64::from(self.late_followup) + 2 * u64::from(self.mid_backup)))))))
+                    + 3 * ((self.prunes - 1) + 2 * (u64::from(self.old_packs) + 2 * (u64::from(self.no_resize) + 2 * (u64::from(self.late_followup) + 2 * (u64::from(self.mid_backup) + 2 * u64::from(self.staged_forget))))))))
     }
     /// (codes below 144 are the scenarios of the earlier rounds: follow-up one hour later, no backup between the prunes)
     pub fn from_code(c: u64) -> Option<Self> {
-        if c >= 576 {
+        if c >= 1152 {
             return None;
         }
         let (n, c) = (c % 3 + 1, c / 3);
@@ -281,7 +285,8 @@ impl Fp {
         let (o, c) = (c % 2 == 1, c / 2);
         let (r, c) = (c % 2 == 1, c / 2);
         let (l, c) = (c % 2 == 1, c / 2);
-        Some(Self { n_snaps: n, forget_all: f, a_new: a, prunes: p, old_packs: o, no_resize: r, late_followup: l, mid_backup: c % 2 == 1 })
+        let (m, c) = (c % 2 == 1, c / 2);
+        Some(Self { n_snaps: n, forget_all: f, a_new: a, prunes: p, old_packs: o, no_resize: r, late_followup: l, mid_backup: m, staged_forget: c % 2 == 1 })
     }
 }
 
@@ -350,7 +355,10 @@ fn scenario_fp(seed: u64, k: usize, fp: Fp, mode: Mode) -> Result<Run, String> {
     let mid = h.be.store();
     // meanwhile: forget, prune (marks what only the forgotten snapshots used), maybe ANOTHER backup, maybe prune again 10 min later
     let forget: Vec<_> = if fp.forget_all { live.drain(..).collect() } else { vec![live.pop().unwrap()] };
-    let ids: Vec<_> = forget.iter().map(|l| l.0.id).collect();
+    let mut ids: Vec<_> = forget.iter().map(|l| l.0.id).collect();
+    // staged: the newest snapshot now, the others between the two prunes
+    let staged = fp.staged_forget && fp.forget_all && fp.prunes == 2 && ids.len() >= 2;
+    let ids_later: Vec<_> = if staged { ids.drain(..ids.len() - 1).collect() } else { vec![] };
     let t1 = now + if fp.old_packs { KD + 3600 } else { 3600 };
     let mut notes: Vec<&'static str> = vec![];
     // files written between the prunes may be replaced by the second prune: keep their content for the trace abstraction
@@ -367,6 +375,10 @@ fn scenario_fp(seed: u64, k: usize, fp: Fp, mode: Mode) -> Result<Run, String> {
         }
         mid2 = h.be.store();
         if fp.prunes == 2 {
+            if staged {
+                h.open()?.delete_snapshots(&ids_later)?;
+                notes.push("forget-staged-over-the-two-prunes");
+            }
             let marking = marking_index_files(&h);
             let m = prune_at_with(&h, t1 + 600, fp.no_resize)?;
             let st = h.be.store();
@@ -532,18 +544,25 @@ pub fn exec(toks: &[&str]) -> String {
 /// values for every value of every other dimension), `mid_backup` on half of the 12 two-prune combinations (all three `a_new`,
 /// both `forget`, both ages; with both values of `late_followup`) — so every round, whatever the seed, holds ≥ 12 histories
 /// whose follow-up prune meets marks older than keep-delete and ≥ 6 in which a backup between two prunes makes the second
-/// prune rewrite the index file of the still-marked packs.  thorough: four rounds.
+/// prune rewrite the index file of the still-marked packs.  Where a two-prune history without such a backup forgets ALL of ≥ 2
+/// snapshots the forget is staged over the two prunes (`staged_forget`: the second prune marks more packs and so rewrites the
+/// index file of the packs the first one marked, too).  thorough: four rounds = the four choices of the two bits, and
+/// `mid_backup` on one-prune histories as well (the other backup runs after the only prune, before the parked backup resumes).
 fn generate_fp(thorough: bool, rng: &mut Rng, ops: &mut Vec<String>, stats: &mut Stats) {
-    for _ in 0..if thorough { 4 } else { 1 } {
-        let (r_late, r_mid) = (rng.below(2), rng.below(2));
+    for round in 0..if thorough { 4u64 } else { 1 } {
+        let (r_late, r_mid) = if thorough { (round % 2, round / 2) } else { (rng.below(2), rng.below(2)) };
         for a_new in 0..3u64 {
             for prunes in 1..=2u64 {
                 for forget_all in [false, true] {
                     for old_packs in [false, true] {
                         let seed = rng.below(1_000_000);
                         let late_followup = (a_new + prunes + u64::from(forget_all) + u64::from(old_packs) + r_late) % 2 == 1;
-                        let mid_backup = prunes == 2 && (a_new + u64::from(forget_all) + r_mid) % 2 == 1;
-                        let fp = Fp { n_snaps: 1 + rng.below(3), forget_all, a_new, prunes, old_packs, no_resize: rng.below(2) == 1, late_followup, mid_backup };
+                        let mid_backup = (prunes == 2 || thorough) && (a_new + u64::from(forget_all) + r_mid) % 2 == 1;
+                        let n_snaps = 1 + rng.below(3);
+                        // where it applies (forget all of ≥ 2 snapshots, two prunes) the forget is staged over the two prunes in the
+                        // histories WITHOUT a backup between the prunes (the other way to make prune 2 rewrite the marked packs' index file)
+                        let staged_forget = forget_all && prunes == 2 && n_snaps >= 2 && !mid_backup;
+                        let fp = Fp { n_snaps, forget_all, a_new, prunes, old_packs, no_resize: rng.below(2) == 1, late_followup, mid_backup, staged_forget };
                         let code = fp.code();
                         let n_a = guarded(move || match scenario_fp(seed, usize::MAX, fp, Mode::Count) {
                             Ok(r) => r.n_a.to_string(),
